@@ -155,23 +155,23 @@ def offs : Nat → List Nat → List Nat
   | s, [] => [s]
   | s, c :: cs => s :: offs (s + c) cs
 
-/-- `xlsub` as `fixupL` leaves it: the first column of a supernode points at its list, the others at
-the end of it -/
-def xlsubOf : Nat → List (List Nat) → List Nat → List Nat
-  | s, r :: rs, f :: f' :: fs => (s :: List.replicate (f' - f - 1) (s + r.length)) ++ xlsubOf (s + r.length) rs (f' :: fs)
-  | s, _, _ => [s]
-
+/-- the predicted structure packed as `fixupL` / `dgstrf.c:437-460` leave it: `xlsub` of the first
+column of a supernode points at its row list, that of its other columns at the end of the list -/
 def toFac (m : Nat) (o : Out) : LUFac Unit :=
   let ns := o.rows.length
-  let widths : List Nat := (List.range o.n).map fun j => (o.rows.getD (o.supno.getD j 0) []).length
+  let loff := offs 0 (o.rows.map (·.length))
+  let xlsub : List Nat := (List.range o.n).map (fun j =>
+    let s := o.supno[j]!
+    if o.xsup[s]! = j then loff[s]! else loff[s + 1]!) ++ [loff[ns]!]
+  let widths : List Nat := (List.range o.n).map fun j => (o.rows[o.supno[j]!]!).length
   let xlusup := offs 0 widths
   let ucp := offs 0 (o.ucols.map (·.length))
   let F : LUFac Unit :=
     { L := { m := m, n := o.n, nsuper := ns - 1, xsup := o.xsup.toArray, supno := o.supno.toArray,
-             xlsub := (xlsubOf 0 o.rows o.xsup).toArray, lsub := o.rows.flatten.toArray,
-             xlusup := xlusup.toArray, lusup := Array.replicate (xlusup.getLastD 0) () },
+             xlsub := xlsub.toArray, lsub := o.rows.flatten.toArray,
+             xlusup := xlusup.toArray, lusup := Array.replicate (xlusup[o.n]!) () },
       U := { m := m, n := o.n, colptr := ucp.toArray, rowind := o.ucols.flatten.toArray,
-             val := Array.replicate (ucp.getLastD 0) () },
+             val := Array.replicate (ucp[o.n]!) () },
       nnzL := 0, nnzU := 0 }
   { F with nnzL := countnzL F.L, nnzU := countnzU F }
 
